@@ -22,7 +22,8 @@ func init() {
 		Title:     "BPF conntrack cleanup never removes a live connection",
 		Technique: "static analysis: SSA guard/provenance rules on the Go scanner (incl. key/timestamp source pairing at the cleanup-queue producer) + clang AST guard rule (compare-then-delete) on conntrack_cleanup.c + type-resolved reference-set comparison of the IPv4/IPv6 twin accessors",
 		DesignRef: "DESIGN.md §3 C14",
-		Explanation: "Decides the compare-then-delete discipline on both sides: (ts) in LivenessScanner.Check every `delete` verdict is returned only under EntryExpired(...)==true (or reverse entry missing) and carries LastSeen() of the very entry that was judged; " +
+		Explanation: "Decides the compare-then-delete discipline on both sides: (ts) every `delete` verdict LivenessScanner.Check hands to its caller is produced only under EntryExpired(...)==true (or reverse entry missing) and carries LastSeen() of the very entry that was judged " +
+			"(the verdict/timestamp pairs are followed through merged results, into in-package helpers whose results Check forwards and back through their parameters to the call site; the guard may sit in the helper, at the call site, or in a predicate helper whose true answers are all guarded by EntryExpired on the corresponding argument); " +
 			"(nodirect) in Scanner.Scan a conntrack entry is deleted directly from user space only when there is no BPF cleaner or the verdict is delete-immediate, and only under a delete verdict; everything else is queued for the kernel-side cleaner with the judged timestamp(s) taken from that Check call; " +
 			"(cguard) in conntrack_cleanup.c every cali_ct_delete_elem is nested (then-branch) in an `if` comparing ->last_seen of a freshly looked-up entry with the timestamp the scanner recorded (last_seen / rev_last_seen), in the IPv4 and IPv6 builds; " +
 			"(timeouts) EntryExpired reads every field of timeouts.Timeouts; " +
@@ -150,13 +151,13 @@ func runC14(c *Ctx) {
 
 	p := c.Load(ctPkg, "felix/bpf/conntrack/timeouts", "felix/bpf/conntrack/v4", "felix/bpf/conntrack/cleanupv1")
 	c.Rule("C14.pair", "E-PAIR", "every call of Scanner.updateCleanupMap(key, revKey, ts, rev_ts): key/ts and revKey/rev_ts each derive from a common source object (the entry the scanner callback was invoked with and its Check judgement, one cached record and the key it was looked up or ranged with, one call); an entry value's own LastSeen() never travels with a key obtained from that value by an accessor; dummy reverse key exempt", 12)
-	c14Pair(c, p)
-	c14Twin(c, p, []string{"felix/bpf/conntrack/v4", "felix/bpf/conntrack/cleanupv1", ctPkg})
-	c14Check(c, p)
-	c14Scan(c, p)
-	c14Timeouts(c, p)
-	c14Idle(c, p)
-	c14CGuard(c)
+	c14Isolated(c, func() { c14Pair(c, p) })
+	c14Isolated(c, func() { c14Twin(c, p, []string{"felix/bpf/conntrack/v4", "felix/bpf/conntrack/cleanupv1", ctPkg}) })
+	c14Isolated(c, func() { c14Check(c, p) })
+	c14Isolated(c, func() { c14Scan(c, p) })
+	c14Isolated(c, func() { c14Timeouts(c, p) })
+	c14Isolated(c, func() { c14Idle(c, p) })
+	c14Isolated(c, func() { c14CGuard(c) })
 }
 
 func c14ConstOf(c *Ctx, p *Prog, name string) *types.Const {
@@ -172,53 +173,38 @@ func c14IsConst(v ssa.Value, k *types.Const) bool {
 	return ok && cv.ExactString() == k.Val().ExactString()
 }
 
+// c14Check: the (verdict, timestamp) pairs LivenessScanner.Check hands to its caller.
+// The pairs are located by following Check's results (merged results, in-package
+// helpers whose results are forwarded, parameters back to the call site's
+// arguments: engine_C14ts.go), not by the function a `return` statement sits in.
 func c14Check(c *Ctx, p *Prog) {
 	fn := p.Func(ctPkg, "LivenessScanner.Check")
 	if fn == nil {
 		c.Lost("LivenessScanner.Check")
 	}
 	del := c14ConstOf(c, p, "ScanVerdictDelete")
-	n := 0
-	for _, r := range returnsOf(fn) {
-		if len(r.Results) != 2 || !c14IsConst(r.Results[0], del) {
-			continue
-		}
-		n++
-		key := fmt.Sprintf("C14.ts/Check/delete#%d", n)
-		site := p.Pos(r.Pos())
-		// the timestamp must be X.LastSeen()
-		ts := r.Results[1]
-		call, ok := ts.(*ssa.Call)
-		if !ok || calleeOf(call.Common()) == nil || calleeOf(call.Common()).Name() != "LastSeen" {
-			c.Violate(key, site, "delete verdict returns %s, which is not the LastSeen() of an entry", path(ts))
-			continue
-		}
-		entry := CallSite{call, calleeOf(call.Common()), fn}.Args()[0]
-		ep := path(entry)
-		expiredOnSame := guardedCut(r, func(cond ssa.Value, pol bool) bool {
-			if !pol {
-				return false
-			}
-			cs, ok := condCall(cond)
-			if !ok || cs.Callee == nil || cs.Callee.Name() != "EntryExpired" {
-				return false
-			}
-			args := cs.Args()
-			return len(args) >= 1 && path(args[len(args)-1]) == ep
-		})
-		notFound := guardedCut(r, callCond(true, func(cs CallSite) bool { return cs.Callee != nil && cs.Callee.Name() == "IsNotExists" }))
-		switch {
-		case expiredOnSame:
-			c.Ok(key, site, "guarded by EntryExpired(…, %s)==true and returns %s.LastSeen()", ep, ep)
-		case notFound:
-			c.Ok(key, site, "reverse entry not found: the orphaned forward entry's own LastSeen() (%s) is returned", ep)
-		default:
-			c.Violate(key, site, "delete verdict with timestamp %s.LastSeen() is not guarded by EntryExpired(…, %s)==true: the kernel cleaner would compare against a timestamp of an entry that was not the one judged expired", ep, ep)
-		}
+	if n := c14TsRun(c, p, fn, "Check", del); n == 0 {
+		c.Lost("no delete verdict is returned by LivenessScanner.Check or the helpers whose results it forwards")
 	}
-	if n == 0 {
-		c.Lost("no `return ScanVerdictDelete, …` in LivenessScanner.Check")
-	}
+}
+
+// c14Isolated runs one rule family; a lost anchor (or an engine panic) in it is
+// recorded as a broken check but does not keep the other, independent families
+// from being evaluated.
+func c14Isolated(c *Ctx, f func()) {
+	defer func() {
+		if r := recover(); r != nil {
+			if al, ok := r.(anchorLost); ok {
+				c.broken = append(c.broken, al.msg)
+				return
+			}
+			if os.Getenv("CALINT_DEBUG") != "" {
+				panic(r)
+			}
+			c.broken = append(c.broken, fmt.Sprintf("ENGINE-PANIC: %v", r))
+		}
+	}()
+	f()
 }
 
 func c14Scan(c *Ctx, p *Prog) {
